@@ -129,6 +129,58 @@ theorem C02_annotate_keeps_hints (cc : CharClasses) (l : Language) (toks : List 
     | exact annotateEnLoop_nanLe _ _ _ _ _ _
     | exact annotateFrLoop_nanLe _ _ _ _ _ _
 
+/-! ### the English pass never hides anything but the word `o` -/
+
+/-- position by position: same lowercase word, and the hint changed only where `p` holds of that word -/
+def OnlyAt (p : Word → Bool) (a b : List Tok) : Prop :=
+  ∀ (j : Nat) (t : Tok), a[j]? = some t →
+    ∃ t', b[j]? = some t' ∧ t'.lower = t.lower ∧ (t'.nan ≠ t.nan → p t.lower = true)
+
+theorem OnlyAt.refl (p : Word → Bool) (a : List Tok) : OnlyAt p a a :=
+  fun _ t h => ⟨t, h, rfl, fun x => absurd rfl x⟩
+
+theorem OnlyAt.trans {p : Word → Bool} {a b c : List Tok} (h1 : OnlyAt p a b) (h2 : OnlyAt p b c) :
+    OnlyAt p a c := by
+  intro j t h
+  obtain ⟨t', h', l1, i1⟩ := h1 j t h
+  obtain ⟨t'', h'', l2, i2⟩ := h2 j t' h'
+  refine ⟨t'', h'', l2.trans l1, fun x => ?_⟩
+  by_cases e : t'.nan = t.nan
+  · rw [← l1]; exact i2 (by rw [e]; exact x)
+  · exact i1 e
+
+theorem OnlyAt.setNan (p : Word → Bool) (toks : List Tok) (i : Nat) (hp : p (lowerAt toks i) = true) :
+    OnlyAt p toks (setNan toks i) := by
+  intro j t h
+  simp only [T2N.setNan, List.getElem?_modify, h]
+  by_cases hij : i = j
+  · subst hij
+    have : lowerAt toks i = t.lower := by
+      simp [lowerAt, List.getD_eq_getElem?_getD, h]
+    rw [this] at hp
+    exact ⟨{ t with nan := true }, by simp, rfl, fun _ => hp⟩
+  · exact ⟨t, by simp [hij], rfl, fun x => absurd rfl x⟩
+
+theorem annotateEnLoop_onlyAt (apply : Word → DS → Res × DS) (sig : List Nat) :
+    ∀ (is : List Nat) (j : Nat) (b : DS) (toks : List Tok),
+      OnlyAt (· == ['o']) toks (annotateEnLoop apply sig is j b toks)
+  | [], _, _, toks => OnlyAt.refl _ toks
+  | i :: rest, j, b, toks => by
+    unfold annotateEnLoop
+    split
+    · rename_i ho
+      dsimp only
+      split
+      · exact annotateEnLoop_onlyAt apply sig rest _ _ _
+      · exact (OnlyAt.setNan _ toks i ho).trans (annotateEnLoop_onlyAt apply sig rest _ _ _)
+    · exact annotateEnLoop_onlyAt apply sig rest _ _ _
+
+/-- **the English `o` pass changes the hint of no token other than an `o`** (whatever `apply` answers): every
+other word reaches the scanner exactly as the caller gave it -/
+theorem C02_annotateEn_only_o (cc : CharClasses) (toks : List Tok) :
+    OnlyAt (· == ['o']) toks (Language.english.annotate cc toks) :=
+  annotateEnLoop_onlyAt _ _ _ _ _ _
+
 /-- **C02 for `replace_numbers_in_text` itself, no premise left**: for every language, threshold, text and
 char classes, the kept pieces of the tokens concatenate to the original text -/
 theorem C02_text_pieces_language (cc : CharClasses) (l : Language) (thr : Nat → Bool) (s : Word) :
